@@ -182,6 +182,14 @@ pub fn run_op(op: &str, a: &[Tok]) -> String {
             let keys: Vec<<C as Pairing>::PublicKey> = a[0].list().iter().map(tok_pk).collect();
             fmt_unit(&<C as BlsSignaturePop>::multi_sig_verify(keys.into_iter(), tok_sig(&a[1]), a[2].bytes()))
         }
+        "trait_aggregate_signatures" => {
+            let l: Vec<<C as Pairing>::Signature> = a[0].list().iter().map(tok_sig).collect();
+            hexpt(&<C as BlsSignatureCore>::aggregate_signatures(l.into_iter()))
+        }
+        "trait_multi_from_signatures" => {
+            let l: Vec<<C as Pairing>::Signature> = a[0].list().iter().map(tok_sig).collect();
+            hexpt(&<C as BlsMultiSignature>::from_signatures(l.into_iter()))
+        }
         "trait_partial_verify" => {
             let pk = pks(&a[1]);
             let sg = sigshare(a[0].scheme(), &a[2]);
